@@ -145,6 +145,7 @@ type sdkRow struct {
 	Name string `json:"name"`
 	B    int    `json:"b"`
 	A    int    `json:"a"`
+	K    int    `json:"k"` // 1 date_time, 2 local_date_time, 0 anything else
 }
 
 var baseIdxByName = map[string]int{"enum": 0, "sint8": 1, "uint8": 2, "sint16": 3, "uint16": 4, "sint32": 5, "uint32": 6, "string": 7,
@@ -209,7 +210,14 @@ func readWorkbook(path string) (rows []sdkRow, err error) {
 		if cell(r, 4) != "" {
 			a = 1
 		}
-		rows = append(rows, sdkRow{M: curMsg, N: n, Name: normName(cell(r, 2)), B: bi, A: a})
+		k := 0
+		switch typ {
+		case "date_time":
+			k = 1
+		case "local_date_time":
+			k = 2
+		}
+		rows = append(rows, sdkRow{M: curMsg, N: n, Name: normName(cell(r, 2)), B: bi, A: a, K: k})
 	}
 	return rows, nil
 }
